@@ -350,6 +350,16 @@ func collectAtoms(fset *token.FileSet, n ast.Node, d *duality, ctx []string, out
 			}
 			return
 		}
+		if len(x.Lhs) == len(x.Rhs) && len(x.Lhs) > 1 && x.Tok == token.ASSIGN {
+			// a, b = e1, e2 is the same statement as b, a = e2, e1: the pairs in a fixed order
+			var pairs []string
+			for i := range x.Lhs {
+				pairs = append(pairs, render(fset, x.Lhs[i], d)+" = "+render(fset, x.Rhs[i], d))
+			}
+			sort.Strings(pairs)
+			emit(strings.Join(pairs, " || "))
+			return
+		}
 		emit(render(fset, x, d))
 	case *ast.ExprStmt, *ast.IncDecStmt, *ast.ReturnStmt:
 		emit(render(fset, x, d))
